@@ -14,7 +14,6 @@ ENV = "GOFLAGS=-mod=mod GOPROXY=off GOSUMDB=off GOTOOLCHAIN=local GOWORK=off"
 NA = {
  "C10": "exact arithmetic of Add/Lsh/Rsh/Mul/Div/Nand/Ltu for all operand values and widths is a numerical result over unbounded byte loops and big.Int round trips; no structural clause short of evaluating the arithmetic (the one structural part, one evaluator per operator, is decided under C09)",
  "C11": "each gadget's meaning is the value of a NAND/shift/compare network for all widths and operands; deciding it needs evaluation or a solver, which is another technique family",
- "C29": "termination and line widths of the greedy wrapper depend on string lengths and a running index; no sound structural necessary condition in reach",
 }
 
 # property -> (technique, level text, level note, design ref)
@@ -97,6 +96,9 @@ T = {
  "C28": ("traversal rules over the sealed IR: exhaustiveness of all 11 type switches, constructor/field/accessor order, Equal compare tables (boolean path enumeration), FindAll pre-order and threading, ReplaceAll/EffectApply rebuild homomorphism (the replacement function sees the rebuilt node), Exprs child sets",
          "the structural utilities visit/compare/rebuild exactly the children and attributes of every node type in the right order; follows the property closely because these functions are structural themselves",
          "trusts go/ssa", "§4 C28"),
+ "C29": ("alphabet rule (characters of the text only compared with the space character) + concrete walk with literal strings of consoleui.format over every space pattern of texts of 1..7 characters x 6 (indentation, width) pairs, the text written to the strings.Builder compared with the property",
+         "since format cannot tell non-space characters apart, the space pattern, the length and the room determine its behaviour: for all 127 patterns up to 7 characters and rooms of 1..4 characters (762 walks) it terminates, every line starts with the indentation and fits the room, every non-space character appears once and in order, a word is split only when it alone is longer than the room. Longer texts are covered only as far as the loop treats every position alike (not proved)",
+         "trusts go/ssa, the walker's string model and strings.Builder", "§4 C29"),
  "C30": ("concrete CFG walk with literal strings: parseAddr on 19 sample arguments, readValue on 11 typed lines (slicing/indexing/len/comparison/ranging evaluated on the literals, out-of-range access recorded as a crash); dataflow rules for sign and byte order",
          "no sample argument crashes; every notation reaches ParseUint with the right base and exactly the digits behind its prefix (a lone 0 is decimal); empty lines and underscores are answered with an error before SetString, every other line reaches SetString(line, 0) unchanged; negative via Sub(0,|n|) folded. The numeric value of strconv/big parsing is trusted",
          "trusts go/ssa, strconv and math/big", "§4 C30"),
